@@ -7,7 +7,7 @@ PROP = {
     "technique": "runtime monitor with execution oracle: generated programs with bounded loops and probes after the loops run in the luars Lua 5.5 VM; infer_expr at post-loop probes must contain the runtime type; "
                  "need-check-nil / call-non-callable must not be reported where the loop's exit condition guarantees a value",
     "design_ref": "§4 C41",
-    "rule": "case = G-loop program (G-flow statements plus while/repeat/numeric for/generic for, nested <= 2, bounded by counters or literal bounds: counter-bounded while with optional extra guard, "
+    "rule": "case = G-loop program (16 x 2000 quick / 16 x 80000 thorough; G-flow statements without empty else blocks, under-initialised locals and condition aliases (C15 territory) plus while/repeat/numeric for/generic for, nested <= 2, bounded by counters or literal bounds: counter-bounded while with optional extra guard, "
             "`while true` with counter break, repeat-until counter [or guard], for with literal / reversed / zero-trip / local-variable bounds, ipairs/pairs over empty and non-empty table literals, "
             "conditional break, bodies assigning literals of various types; the four exit-guarantee templates `while not v`, `while v == nil`, `repeat..until v`, `repeat..until v ~= nil` followed by a use `v()`, `v + 1`, `v.f`, `v:upper()`); "
             "probes after every loop for every variable the body assigns or the condition mentions; "
@@ -21,6 +21,8 @@ PROP = {
         "the diagnostic clause is judged only for the templates in which 'v is not nil and has the literal's type after the loop' follows statically from the exit condition "
         "(no break, v assigned only from literals of one truthy type, pre-loop value nil/absent/false/same type), and the execution confirms it",
         "a post-loop failure that persists after all loops are removed from the shrunk witness is C15 territory and is counted inconclusive here",
+        "violating cases beyond 4 shrunk witnesses per pre-classification and shard (40 per shard overall) are not shrunk and are counted inconclusive (volume bound, never a verdict)",
+        "need-check-nil is judged only when its range is exactly the variable token, call-non-callable only when it reports the type `never`",
     ],
     "level_text": "Each program is executed once (closed, deterministic, instruction-bounded) and analysed by the real pipeline with the std library loaded. Exploration over generated programs, not a proof.",
     "level_note": "Loops are bounded to <= 3 iterations; goto-based loops and coroutines are not generated.",
